@@ -93,6 +93,18 @@ def run_case(ri):
     if r['m'] in ('central', 'forward', 'backward'):
         if not same(at(v1), np.asarray(v3).reshape(())):
             probs.append('scalar: element %s in the array gives %r, alone as a scalar %r' % (pos, at(v1), float(v3)))
+        if size > 7 and not probs:
+            # every element, not only the target: an array with more elements than generated steps must not change any of them
+            flat = np.asarray(v1).reshape(-1)
+            try:
+                with np.errstate(all='ignore'):
+                    for q in range(size):
+                        vq = nd.Derivative(FUN, n=r['n'], method=r['m'], order=r['o'])(float(vals[q]))
+                        if not same(flat[q], np.asarray(vq).reshape(())):
+                            probs.append('scalar: element #%d (x = %r) of the %d-element array gives %r, alone as a scalar %r' % (q, float(vals[q]), size, float(flat[q]), float(vq)))
+                            break
+            except Exception as ex:
+                probs.append('raises: scalar evaluation: %s' % ex)
     else:
         est = abs(float(np.ravel(i3.error_estimate)[0])) + abs(float(np.ravel(i1.error_estimate)[col]))
         if not abs(at(v1) - float(v3)) <= 10 * est + 1e-12 * abs(float(v3)):
